@@ -1,7 +1,7 @@
 #!/bin/bash
 # Runs every kept seeded change against the check of the property it breaks (and, for seeds known to be caught by a
 # different property's check, against that one). Prints one line per seed.
-declare -A ALT=( [C03-m1]=C08 [C03-m2]=C07 )
+declare -A ALT=( [C03-m1]=C08 [C03-m2]=C07 [C07-m4]=C08 )
 for d in /verif/seeded/C*-m*; do
   x=$(basename $d); p=${x%-*}; q=${ALT[$x]:-$p}
   out=$(/verif/selftest/seed.sh $d $q 2>&1)
